@@ -92,7 +92,8 @@ Proof. exact missing_fragment_example. Qed.
 (** ======================= the same faults over the OTHER components' models ======================= *)
 From CGV Require Import Base.NxGraph Reader.ReaderImpl Reader.ReaderLemmas Reader.ReaderSim Reader.ReaderRing
      Resolve.GraphOps Resolve.Pipeline Frag.NDict Frag.StripImpl Frag.FragText
-     Dialect.ReaderFaults Dialect.FragAnnot Dialect.CopyAnnot Dialect.ResolveFaults.
+     Reader.Grammar Reader.Lin Reader.ReaderCheck Reader.ReaderUnit
+     Dialect.ReaderFaults Dialect.FragAnnot Dialect.CopyAnnot Dialect.ResolveFaults Dialect.MachineFaults.
 
 (** ---- the real reader model (Reader/ReaderImpl.v) ---- *)
 (** an error inside the loop iteration of ANY node (= any reachable loop state) is the result *)
@@ -130,6 +131,57 @@ Theorem C20_reader_dangling_rejected : forall fo s st k ks,
   main_loop (Datatypes.S (length s)) fo (last s " "%char) s init_state = Ok st -> marker_trace s = Ok (k :: ks) ->
   read_cgsmiles fo s = Err (ESyntax (S "dangling")).
 Proof. exact open_marker_dangling. Qed.
+
+(** THE HEADLINE for reader faults: every string of the documented grammar (well-formed AST - which asks neither
+    for balanced rings nor for valid annotations -, no branch multiplier, outside the reader's own defect classes),
+    base graph in braces or coarse fragment text, with the fault at ANY token position.  [toks (expand_branches a)]
+    is the token list of the string; the reader model equals the token machine on it (reader component's
+    reader_sim_C04), the three faults are decided on the machine (Dialect/MachineFaults.v) *)
+Theorem C20_grammar_annotation_error : forall fo braces a, Grammar.wf fo a = true -> has_branch_mult a = false ->
+  class_C04 braces a = 0%nat -> forall pre nm n post x e, toks (expand_branches a) = pre ++ TNode nm n :: post ->
+  m_run fo pre m_init = Ok x -> parse_graph_base_node fo nm = Err e ->
+  read_cgsmiles fo (print braces a) = Err e.
+Proof. exact grammar_annotation_error. Qed.
+Theorem C20_grammar_duplicate_rejected : forall fo braces a, Grammar.wf fo a = true -> has_branch_mult a = false ->
+  class_C04 braces a = 0%nat -> forall pre o m post x cur n0 o0, toks (expand_branches a) = pre ++ TRing o m :: post ->
+  m_run fo pre m_init = Ok x -> m_prev x = Some cur -> rt_get m (m_rings x) = Some (n0, o0) ->
+  has_edge (m_g x) cur n0 = true ->
+  read_cgsmiles fo (print braces a) = Err (ESyntax (S "double")).
+Proof. exact grammar_duplicate_rejected. Qed.
+Theorem C20_grammar_dangling_rejected : forall fo braces a, Grammar.wf fo a = true -> has_branch_mult a = false ->
+  class_C04 braces a = 0%nat -> forall m, Nat.odd (ring_occurrences m (toks (expand_branches a))) = true ->
+  (forall g, read_cgsmiles fo (print braces a) <> Ok g) /\
+  (forall x, m_run fo (toks (expand_branches a)) m_init = Ok x -> read_cgsmiles fo (print braces a) = Err (ESyntax (S "dangling"))).
+Proof. exact grammar_dangling_rejected. Qed.
+(** the machine theorems themselves (they also cover flat strings and strings with branch multipliers through
+    [C20_flat_read_is_machine] / [C20_units_read_is_machine]) *)
+Theorem C20_machine_annotation_error : forall fo pre nm n post x e,
+  m_run fo pre m_init = Ok x -> parse_graph_base_node fo nm = Err e ->
+  m_finish (m_run fo (pre ++ TNode nm n :: post) m_init) = Err e.
+Proof. exact machine_annotation_error. Qed.
+Theorem C20_machine_duplicate_rejected : forall fo pre o m post x cur n0 o0,
+  m_run fo pre m_init = Ok x -> m_prev x = Some cur -> rt_get m (m_rings x) = Some (n0, o0) ->
+  has_edge (m_g x) cur n0 = true ->
+  m_finish (m_run fo (pre ++ TRing o m :: post) m_init) = Err (ESyntax (S "double")).
+Proof. exact machine_duplicate_rejected. Qed.
+Theorem C20_machine_dangling_rejected : forall fo m ts, Nat.odd (ring_occurrences m ts) = true ->
+  (forall g, m_finish (m_run fo ts m_init) <> Ok g) /\
+  (forall x, m_run fo ts m_init = Ok x -> m_finish (m_run fo ts m_init) = Err (ESyntax (S "dangling"))).
+Proof. exact machine_dangling_rejected. Qed.
+Theorem C20_flat_read_is_machine : forall fo l, lins_ok fo l = true ->
+  read_cgsmiles fo ("{"%char :: lins_str l ++ ["}"%char]) = m_finish (m_run fo (lins_toks l) m_init).
+Proof. exact flat_read_is_machine. Qed.
+Theorem C20_units_read_is_machine : forall fo l, segs_ok fo l = true ->
+  read_cgsmiles fo ("{"%char :: segs_str l ++ ["}"%char]) = m_finish (m_run fo (segs_toks l) m_init).
+Proof. exact units_read_is_machine. Qed.
+Example C20_nonvacuous_grammar :
+  let fo := fo_of_table [] in
+  let a := [Item (S "A") [(None, MDigit 1)] None None [Branch [Item (S "B") [(None, MDigit 7)] None None []] None None];
+            Item (S "C;q=x=y") [(None, MDigit 1)] None None []] in
+  Grammar.wf fo a = true /\ has_branch_mult a = false /\ class_C04 true a = 0%nat /\
+  Nat.odd (ring_occurrences 7 (toks (expand_branches a))) = true /\
+  read_cgsmiles fo (print true a) = Err (ESyntax (S "toomany_eq")).
+Proof. exact grammar_faults_example. Qed.
 
 (** ---- strip_bonding_descriptors (Frag/StripImpl.v) ---- *)
 Theorem C20_strip_annotation_error : forall fo toks dc pre body annot post sp e,
@@ -179,3 +231,7 @@ Print Assumptions C20_reader_duplicate_rejected.
 Print Assumptions C20_reader_dangling_never_a_graph.
 Print Assumptions C20_strip_annotation_error.
 Print Assumptions C20_resolver_missing_fragment.
+Print Assumptions C20_grammar_annotation_error.
+Print Assumptions C20_grammar_duplicate_rejected.
+Print Assumptions C20_grammar_dangling_rejected.
+Print Assumptions C20_units_read_is_machine.
